@@ -1,6 +1,6 @@
 (* C13 -- A module can be printed from many goroutines at once. *)
 From Coq Require Import List Bool Arith ZArith String.
-From LLIR Require Import Model.Concurrency Gen.Locks Proofs.ConcurrencyProofs Proofs.GenTables.
+From LLIR Require Import Model.Concurrency Gen.Locks Gen.Printers Proofs.ConcurrencyProofs Proofs.GenTables Proofs.ObserverProofs.
 Import ListNotations.
 
 (* Model/Concurrency.v: any number of printer threads; each takes the mutex of the ID pass, walks the
@@ -41,3 +41,20 @@ Proof. exact local_ids_race_free_now. Qed.
 Theorem C13_global_ids_race_free_now : forall expected s0 s,
   initial expected s0 -> reachable (guarded_of "AssignGlobalIDs") expected s0 s -> ~ race (guarded_of "AssignGlobalIDs") expected s.
 Proof. exact global_ids_race_free_now. Qed.
+
+(* outside the three ID passes, what printing executes (the regenerated bodies of all 491 String / LLString /
+   Ident / Type / WriteTo methods of ir, ir/types, ir/constant, ir/metadata, as they are in the source now)
+   writes to no object that existed before the call, except that a Type method fills its own empty cache:
+   every such write sits under the test `recv.Typ == nil`.  The constructors and the parser fill these
+   caches, so printers of a module built through them only read (the assumption is observed by the race
+   runs, which also cover modules whose fields were assigned after the constructors). *)
+Theorem C13_printing_writes_only_empty_type_caches : forallb write_ok observers = true.
+Proof. exact observers_write_only_the_type_cache. Qed.
+(* and the only effectful methods printing calls are the three ID passes, from Func.LLString and Module.WriteTo *)
+Theorem C13_printing_calls_only_id_passes :
+  forallb (fun p => forallb (fun m => ObserverProofs.mem m pure_calls || ObserverProofs.mem m id_passes) (flat_map scalls (p_body p))) observers = true.
+Proof. exact observers_call_only_id_passes. Qed.
+Theorem C13_id_passes_called_from :
+  map (fun p => (p_type p, p_method p)) (filter (fun p => existsb (fun m => ObserverProofs.mem m id_passes) (flat_map scalls (p_body p))) observers)
+  = [("ir.Func", "LLString"); ("ir.Module", "WriteTo")]%string.
+Proof. exact id_passes_called_from. Qed.
